@@ -247,7 +247,7 @@ def run_property(prop_id, spec, tier, seed=0, only_unit=None, keep=False, verbos
         for u in units:
             opts = dict(query_timeout_ms=u.get('query_timeout_ms', 20000 if tier == 'quick' else 300000),
                         max_steps=u.get('max_steps', 5_000_000), max_loop=u.get('max_loop', 2000),
-                        max_paths=u.get('max_paths', 200000))
+                        max_paths=u.get('max_paths', 200000), overrides=u.get('overrides', {}))
             for fx in expand_split(u.get('split')):
                 jobs.append((unit_paths[u['name']], fx, opts, u['name']))
         rnd = random.Random(seed)
@@ -471,7 +471,8 @@ def validate_unit(native, unit_path, u, vec):
     from . import irfront, irs
     mod = irfront.load_module(unit_path)
     E = irs.Engine(mod, dict(fixed=dict(vec), concrete_defaults=True, query_timeout_ms=20000,
-                           max_loop=u.get('max_loop', 2000), max_steps=u.get('max_steps', 5_000_000)))
+                           max_loop=u.get('max_loop', 2000), max_steps=u.get('max_steps', 5_000_000),
+                           overrides=u.get('overrides', {})))
     res = E.run('h_main')
     if res.errors or res.violations or res.issues:
         return False, 'E2 concrete run: errors=%s violations=%s issues=%s' % (res.errors[:2], [v['label'] for v in res.violations[:2]], [i['msg'] for i in res.issues[:2]])
